@@ -39,7 +39,7 @@ type faultWriter struct {
 	calls    int
 	accepted bytes.Buffer
 	// script: for call number k (1-based) what to do
-	mode     int // 0 none, 1 fail from k on, 2 fail only at k, 3 partial+error at k, 4 short write nil error at k
+	mode     int // 0 none, 1 fail from k on, 2 fail only at k, 3 partial+error at k, 4 short write nil error at k, 6 full write + error at k
 	k, k2    int // k2: second single failure (0 = none)
 	reached  bool
 	failedAt int // offset in accepted bytes at the first failure
@@ -69,6 +69,14 @@ func (w *faultWriter) Write(p []byte) (int, error) {
 			w.failedAt = w.accepted.Len()
 		}
 		return h, errInjected
+	case w.mode == 6 && n == w.k:
+		// every byte is taken AND an error is reported (a writer may do that: n == len(p) with a non-nil error)
+		w.accepted.Write(p)
+		if !w.reached {
+			w.reached = true
+			w.failedAt = w.accepted.Len()
+		}
+		return len(p), errInjected
 	case w.mode == 4 && n == w.k:
 		h := len(p) / 2
 		w.accepted.Write(p[:h])
@@ -131,6 +139,11 @@ func c15Tables() []c10Table {
 		t.AddRowItems(strings.Repeat("x", 600), strings.Repeat("y\"", 1000))
 		t.AddRowItems("short", strings.Repeat("é", 300))
 	}})
+	out = append(out, c10Table{"an entirely empty column (empty header, empty cells): zero-length writes", func(t tabular.Table) {
+		t.AddHeaders("a", "", "c")
+		t.AddRowItems("1", "", "3")
+		t.AddRowItems("4", nil, "6")
+	}})
 	out = append(out, c10Table{"repeated rows: three identical rows, two identical two-line rows, a row equal to the header", func(t tabular.Table) {
 		t.AddHeaders("same", "row")
 		t.AddRowItems("same", "row")
@@ -172,8 +185,8 @@ func runC15(x *X) {
 		}
 	}
 	c15SecondRender(x)
-	modeNames := []string{"", "fail from k on", "fail only at k", "partial write with error at k", "short write without error at k", "fail only at k1 and k2"}
-	x.Explore("single-fault", ExploreOpts{ShardDepth: 3, Bound: "every (table, renderer, writer kind) x every Write index k of the fault-free run x 4 failure modes"}, func(c *Chooser) {
+	modeNames := []string{"", "fail from k on", "fail only at k", "partial write with error at k", "short write without error at k", "fail only at k1 and k2", "all bytes accepted together with an error at k"}
+	x.Explore("single-fault", ExploreOpts{ShardDepth: 3, Bound: "every (table, renderer, writer kind) x every Write index k of the fault-free run x 5 failure modes"}, func(c *Chooser) {
 		ti, ri, wk := c.Choose(len(tables)), c.Choose(len(rends)), c.Choose(2)
 		r := refs[[3]int{ti, ri, wk}]
 		if r.calls == 0 {
@@ -183,7 +196,7 @@ func runC15(x *X) {
 			return
 		}
 		k := 1 + c.Choose(r.calls)
-		mode := 1 + c.Choose(4)
+		mode := []int{1, 2, 3, 4, 6}[c.Choose(5)]
 		c15Run(x, c, tables[ti], rends[ri], wk, mode, k, 0, r.bytes, r.err, modeNames)
 	})
 	// tall tables (more body rows than any plausible batch size): single faults only
@@ -223,7 +236,7 @@ func runC15(x *X) {
 			}
 		}
 	}
-	x.Explore("single-fault-tall-tables", ExploreOpts{ShardDepth: 3, Bound: "2 tall tables (70 and 130 body rows) x every renderer x writer kind x every Write index k of the fault-free run x 4 failure modes"}, func(c *Chooser) {
+	x.Explore("single-fault-tall-tables", ExploreOpts{ShardDepth: 3, Bound: "2 tall tables (70 and 130 body rows) x every renderer x writer kind x every Write index k of the fault-free run x 5 failure modes"}, func(c *Chooser) {
 		ti, ri, wk := c.Choose(len(tall)), c.Choose(len(rends)), c.Choose(2)
 		r := tallRefs[[3]int{ti, ri, wk}]
 		if r.calls == 0 {
@@ -232,7 +245,7 @@ func runC15(x *X) {
 			return
 		}
 		k := 1 + c.Choose(r.calls)
-		mode := 1 + c.Choose(4)
+		mode := []int{1, 2, 3, 4, 6}[c.Choose(5)]
 		c15Run(x, c, tall[ti], rends[ri], wk, mode, k, 0, r.bytes, r.err, modeNames)
 	})
 	{
